@@ -11,6 +11,7 @@ import warnings
 import numpy as np
 
 from . import common as C
+from translate import interp_weights as TW
 
 PID = 'C15'
 SHARD_SIZE = 150
@@ -37,6 +38,10 @@ TRUSTED = ['C15/Model.v hand-written model of discr_utils.py interpolation code 
            'harness/c15.py generation of callables from the expression language (source text + exec)']
 
 SCH = {'nearest': 'SNearest', 'linear': 'SLinear'}
+
+
+def translate():
+    return {'Gen/InterpWeights.v': TW.translate()}
 
 
 # ----------------------------------------------------------------- generators
@@ -191,7 +196,7 @@ def case_term(kind, schemes, cvs, dtype, vre, vim, conv, pts, mesh, variants, ou
 
 
 def interp_cases(rng, tier, variants):
-    cs = C.CaseSet('interp', ['C15.Model', 'C15.Corr'], 'check', 'case')
+    cs = C.CaseSet('interp', ['C15.Syntax', 'C15.Model', 'C15.Corr'], 'check', 'case')
     n_cases = 700 if tier == 'quick' else 3500
     for it in range(n_cases):
         d = rng.choice([1, 1, 2, 2, 3])
@@ -398,7 +403,7 @@ exec(SAMPLE_SRC)
 
 
 def sampling_cases(rng, tier):
-    cs = C.CaseSet('sampling', ['C15.Model', 'C15.Corr'], 'scheck', 'scase')
+    cs = C.CaseSet('sampling', ['C15.Syntax', 'C15.Model', 'C15.Corr'], 'scheck', 'scase')
     n_cases = 360 if tier == 'quick' else 1800
     for it in range(n_cases):
         d = rng.choice([1, 1, 2, 2, 3])
@@ -454,8 +459,8 @@ def sampling_cases(rng, tier):
 def resample_cases(rng, tier, variants):
     """Resampling(domain, range, interp)(domain.element(callable)) and linear_deform."""
     import odl
-    cs = C.CaseSet('resample', ['C15.Model', 'C15.Corr'], 'rcheck', 'rcase')
-    cs2 = C.CaseSet('deform', ['C15.Model', 'C15.Corr'], 'check', 'case')
+    cs = C.CaseSet('resample', ['C15.Syntax', 'C15.Model', 'C15.Corr'], 'rcheck', 'rcase')
+    cs2 = C.CaseSet('deform', ['C15.Syntax', 'C15.Model', 'C15.Corr'], 'check', 'case')
     n_cases = 120 if tier == 'quick' else 600
     for it in range(n_cases):
         d = rng.choice([1, 1, 2, 2, 3])
